@@ -107,6 +107,14 @@ def list_by_label(ctx, case):
         for k, ci in enumerate(assign):
             ctl.add_message(w, ci)     # (messages on objects that were never created carry no connection: ill-formed, outside)
         w.ctl.process_command('connection all')
+        # the same labels may have been used in earlier commands of the session (filters accumulate; that must not leak into a later `list`)
+        earlier = ctx.choose([None, 'filters', 'breakpoints'], 'labels_used_before')
+        if earlier is not None:
+            cmdname = 'filter ' if earlier == 'filters' else 'breakpoint '
+            w.ctl.process_command(cmdname + 'wl_zzz')
+            for ci in (1, 0):
+                w.ctl.process_command(cmdname + w.conns[ci].name() + ':')
+                w.ctl.process_command(cmdname + w.conns[ci].name() + ': 1a')
         for ci in (0, 1):
             name = w.conns[ci].name()
             k0 = len(w.out.items)
